@@ -41,8 +41,8 @@ func TestCheck(t *testing.T) {
 		ests := make([]int, 0, n+1) // ests[i] = reported estimate before sample i
 		where := map[int64]int{}
 		level := int64(1 + r.IntN(500))
-		K := 0           // earliest reset index consistent with everything observed so far
-		lastMaybe := -1  // latest index whose own rtt became the baseline (every probe is one of these)
+		K := 0            // earliest reset index consistent with everything observed so far
+		lastMaybe := -1   // latest index whose own rtt became the baseline (every probe is one of these)
 		lastCertain := -1 // latest index at which the baseline was certainly reset (raised / cleared)
 		prevB := int64(0)
 		resets, raises, lowerings := 0, 0, 0
